@@ -51,8 +51,15 @@ func (g *G) intn(lo, hi int, label string) int {
 	return rapid.IntRange(lo, hi).Draw(g.t, label)
 }
 
+// chance is true with roughly pct percent probability. rapid's ranged integers are biased towards
+// small values, so the orientation of the comparison alternates with a fair bit; "false" stays
+// the value rapid shrinks to.
 func (g *G) chance(pct int, label string) bool {
-	return rapid.IntRange(0, 99).Draw(g.t, label) >= 100-pct
+	v := rapid.IntRange(0, 99).Draw(g.t, label)
+	if rapid.Bool().Draw(g.t, label+"~") {
+		return v < pct
+	}
+	return v >= 100-pct
 }
 
 func (g *G) pick(label string, opts ...string) string {
